@@ -606,6 +606,13 @@ impl TxPoolServiceBuilder {
 
         #[cfg(feature = "verif-hooks")]
         crate::verif::register(&service.tx_pool);
+        #[cfg(feature = "verif-hooks")]
+        if let Some(ref block_assembler) = service.block_assembler {
+            crate::verif::UNCLES
+                .lock()
+                .expect("lock")
+                .push(Arc::downgrade(&block_assembler.candidate_uncles));
+        }
 
         let mut verify_mgr =
             VerifyMgr::new(service.clone(), self.chunk_rx, self.signal_receiver.clone());
